@@ -7,7 +7,8 @@
 (*   point filter each point separately)                                          *)
 EXTENDS KalmanProto, Json, TLC
 CONSTANTS M, D
-Boxes == << <<100000, 50000, 0, 500, 20000>>, <<103500, 48250, 0, 550, 21000>>, <<4000000, 3000250, 300, 2000, 160000>> >>
+(* box 2 is rotated by a NEGATIVE angle, box 3 by more than a full turn: a filter works on the angle as measured *)
+Boxes == << <<100000, 50000, 0, 500, 20000>>, <<103500, 48250, -300, 550, 21000>>, <<4000000, 3000250, 6600, 2000, 160000>> >>
 PointSets == << << <<100000, 50000>>, <<-7500, 1250>>, <<0, 0>> >>,
                 << <<101500, 49250>>, <<-7000, 1000>>, <<250, -125>> >>,
                 << <<9000000, 1000>>, <<-7500, 1250>>, <<3000, 4000>> >> >>
